@@ -132,14 +132,11 @@ func replicaChecks(res *common.Result, cfg Config, work string, s *apphist.Sim) 
 				skip = false
 				prim = append(prim, r)
 			}
-			if i, d := firstDivergence(prim, b.Recs, true); i >= 0 {
-				kind := "restart-divergence-other"
-				r := prim[min(i, len(prim)-1)]
-				// the known defect (validator list not persisted) shows first as a validator-update difference or
-				// as a transaction that depends on validator membership / the limiter
-				if r.Kind == "end" || (r.Kind == "tx" && (strings.Contains(d, "noright") || strings.Contains(d, "limiter"))) {
-					kind = "restart-divergence"
-				}
+			// CheckTx answers between a restart and the next BeginBlock may differ (the mempool view and the
+			// limiter evaluation are not persisted); the property speaks of block results, updates and hashes
+			notCheck := func(r *apphist.Rec) bool { return !(r.Kind == "tx" && r.Mode == "c") }
+			if i, d := firstDivergence(consensusRecs(prim, notCheck), consensusRecs(b.Recs, notCheck), true); i >= 0 {
+				kind := "restart-divergence"
 				res.Violations = append(res.Violations, common.Violation{Property: "C07", Kind: kind,
 					Detail: "a restarted node and a node that kept running differ at " + d, Ops: lines})
 			}
